@@ -2,5 +2,6 @@ pub mod btree;
 pub mod crash;
 pub mod seq;
 pub mod tuple;
+pub mod values;
 pub mod wal;
 pub mod wire;
